@@ -270,6 +270,27 @@ def work_hist(chunk):
                 if diff:
                     col.violation({"property": "C09", "sig": "C09:continuation-of-a-rebuilt-copy-differs-from-the-original-objects" + (":holiday-entered-at-the-stop" if ins is not None else ""), "kind": "hist", "spec": spec, "opts": opts,
                                    "hist": "sim(max_time=%d)%s;copy via JSON;continue both" % (k, ";insert%s" % ins if ins is not None else ""), "detail": {"first_difference(original, copy)": diff}})
+        # (1e) the same declared model built another way: twins made with copy.copy (run-time containers still shared with the template) vs. every object from its constructor
+        def _strip(x):
+            if isinstance(x, dict):
+                return {k_: _strip(v_) for k_, v_ in x.items() if k_ != "copy_of"}
+            if isinstance(x, list):
+                return [_strip(v_) for v_ in x]
+            return x
+
+        if "copy_of" in repr(spec):
+            try:
+                mc_ = runner.prepare(_strip(spec), opts)
+                mc_.project.simulate(**runner.sim_kwargs(opts))
+                dc = jdump(mc_)
+            except Exception as e:
+                dc = "ERR:" + repr(e)
+            col.evaluations += 1
+            col.checks["c09.copy-built-vs-constructor-built"] += 1
+            col.transitions.add(hash((key, "copy-vs-ctor")))
+            if dc != d1:
+                col.violation({"property": "C09", "sig": "C09:model-built-with-copy-twins-gives-another-result-than-the-constructor-built-model", "kind": "hist", "spec": spec, "opts": opts, "hist": "copy twins vs constructors",
+                               "detail": {"first_difference(copy-built, constructor-built)": first_diff(d1, dc) if not dc.startswith("ERR") else dc}})
         # (2) rebuilt model with the library's own classes (id()-hashed, new addresses), twice
         junk = [object() for _ in range(17)]
         e1 = runner.run(spec, dict(opts, plain=True, phases=()))
@@ -512,6 +533,9 @@ def hist_items(tier):
     for sp in F.two_pair_specs() + [F.decimal_floor_spec(), F.tied_lines_spec()]:
         out.append((sp, {"rule": "TSLACK", "max_time": F.seq_bound(sp) + 8}))
     out.append((F.tied_lines_spec(), {"rule": "LRPT", "max_time": 30}))
+    for sp in F.usage_specs():
+        if "parent-child:one-cap1" not in sp["label"] and ("bottom-up:fac" not in sp["label"] or sp["label"].endswith("both")):
+            out.append((sp, {"rule": "TSLACK", "max_time": F.seq_bound(sp) + 10}))
     # design -> build next to a long independent task; one worker cannot design: a running task that can take a second worker competes with a waiting one
     for wv in ((3.0, 3.0, 6.0), (2.0, 3.0, 5.0), (3.0, 2.0, 4.0)):
         sp = {"tasks": [{"name": "design", "work": wv[0]}, {"name": "build", "work": wv[1]}, {"name": "docs", "work": wv[2]}], "links": [[0, 1, "FS"]],
